@@ -1,8 +1,8 @@
 --------------------------- MODULE LightStackTrace ---------------------------
 (* One colour channel of one recorded execution of a real Light.  Logged per call: arguments, the *)
 (* start colour the light chose for a fade, the logical colour (get_color) afterwards; per time   *)
-(* step additionally the brightness last commanded to every hardware channel and the corrected   *)
-(* logical colour it must equal once all fades have finished.                                     *)
+(* step additionally the brightness last commanded to every hardware channel, the corrected      *)
+(* logical colour it must equal once all fades have finished, and the keys still in the stack.    *)
 EXTENDS LightStack, TraceIO
 VARIABLES tid, l
 tvars == <<vars, tid, l>>
@@ -10,11 +10,14 @@ TL == TraceLines[tid].ev
 TInit == /\ tid \in 1..Len(TraceLines) /\ l = 1 /\ Init
 ObsLogical(e) == InR(e.lg, Range(stack', now'))
 ObsHw(e) == AtRest(stack', now') => e.hw = e.exp
+\* the keys the real light holds after a time step are exactly those of the model: in particular a key removed with a fade
+\* is gone when its fade-out has ended, also when fade-outs of other keys began or ended meanwhile (e.ks: list of keys)
+ObsKeys(e) == {e.ks[i] : i \in DOMAIN e.ks} = KeysOf(stack')
 Step(e) ==
     /\ \/ e.op = "color" /\ Color(e.c, e.f, e.p, e.k, e.sc)
        \/ e.op = "remove" /\ Remove(e.k, e.f, e.sc)
        \/ e.op = "clear" /\ ClearStack
-       \/ e.op = "adv" /\ Adv /\ ObsHw(e)
+       \/ e.op = "adv" /\ Adv /\ ObsHw(e) /\ ObsKeys(e)
     /\ ObsLogical(e)
 TNext == l <= Len(TL) /\ Step(TL[l]) /\ l' = l + 1 /\ UNCHANGED tid
 TSpec == TInit /\ [][TNext]_tvars
